@@ -580,6 +580,11 @@ func (e *Engine) solve(fc *FnCtx) {
 				o.Status, o.Backend = "sat", sv.name
 				o.Model = extractModel(out, fc.watch)
 				o.Output = tail(out, 3000)
+				if !o.Cover && safetyKinds[o.Kind] && !strings.Contains(o.Name, ">") {
+					e.makeReplay(fc, o, single, sv, tag)
+				} else if !o.Cover {
+					o.ReplayWhy = "no generic recipe for this kind of obligation (postcondition / inlined callee); the model of the parameters is in the replay file"
+				}
 				break
 			}
 			if r != "" && r != "unsat" {
@@ -642,4 +647,23 @@ func balanced(s string) bool {
 		}
 	}
 	return d == 0
+}
+
+// makeReplay asks the solver for the values the replay needs and generates the test.
+func (e *Engine) makeReplay(fc *FnCtx, o *Obligation, single string, sv solverSpec, tag string) {
+	terms := fc.replayTerms()
+	if len(terms) == 0 {
+		o.ReplayWhy = "function has no parameters"
+	}
+	q := strings.Replace(single, "(check-sat)\n", "(check-sat)\n(echo \"@@values\")\n(get-value ("+strings.Join(terms, " ")+"))\n", 1)
+	if len(terms) == 0 {
+		q = single
+	}
+	out, _ := e.runSolver(sv, q, tag+"_rv", time.Duration(e.timeoutMs+5000)*time.Millisecond)
+	vals := parseGetValue(out, len(terms))
+	src, why := fc.buildReplay(o, vals)
+	o.ReplayGo, o.ReplayWhy = src, why
+	if fc.fn.Pkg != nil {
+		o.ReplayPkg = strings.TrimPrefix(strings.TrimPrefix(fc.fn.Pkg.Pkg.Path(), repoMod), "/")
+	}
 }
